@@ -5,6 +5,7 @@ from fractions import Fraction
 from ..frontend import AnalysisError, src, dotted, walk_no_nested
 from ..lin import Lin, Form
 from ..symx import run_paths
+from ..pathcond import implied
 
 FE = 'thermosteam/free_energy.py'
 MANIFEST = {
@@ -96,70 +97,56 @@ def builder_table(prog):
 
 
 def check_builder_call_zip(ctx, r):
-    """PhaseFunctorBuilder.__call__ zips (phases, builders, data): every triple must
-    name the same phase letter."""
-    f = ctx.prog.method('PhaseFunctorBuilder', '__call__', rel=PH)
-    tup = {}
-    for st in f.node.body:
-        if isinstance(st, ast.Assign) and isinstance(st.value, ast.Tuple) and isinstance(st.targets[0], ast.Name):
-            tup[st.targets[0].id] = st.value.elts
-    # the loop over (phase letter, builder, data) triples: zip of three parallel literal tuples, or one literal tuple of triples
-    zipcall = None
-    triples = None
-    for n in ast.walk(f.node):
-        if not (isinstance(n, ast.For) and isinstance(n.target, ast.Tuple) and len(n.target.elts) == 3):
+    """PhaseFunctorBuilder.__call__ pairs (phase letter, builder, data): decided on the normal form of the method (literal
+    tuples zipped, literal loops / dict comprehensions unrolled), where every pairing is one guarded item store
+    d['p'] = self.<p>.from_args(<p>data) into the dict that is handed to the handle as **d."""
+    from ..resolve import resolved, path_defs
+    prog = ctx.prog
+    f = prog.method('PhaseFunctorBuilder', '__call__', rel=PH)
+    node = prog.normal_form(f)
+    ps, _ = run_paths(node, follow_except=False)
+    cons = 'PhaseFunctorBuilder.__call__'
+    seen = {}
+    n_paths = 0
+    for p in ps:
+        if p.raised:
             continue
-        it = n.iter
-        if isinstance(it, ast.Call) and src(it.func) == 'zip' and len(it.args) == 3:
-            cols = []
-            for a in it.args:
-                if isinstance(a, ast.Name) and a.id in tup:
-                    cols.append(tup[a.id])
-                elif isinstance(a, ast.Tuple):
-                    cols.append(a.elts)
-                else:
-                    raise AnalysisError('PhaseFunctorBuilder.__call__: zip argument %s not a literal tuple' % src(a))
-            if len({len(c) for c in cols}) == 1:
-                triples = [tuple(c[i] for c in cols) for i in range(len(cols[0]))]
-                zipcall = n
+        n_paths += 1
+        rets = [e for e in p.events if e.kind == 'ret' and isinstance(e.node, ast.Call)]
+        stars = [k.value for k in rets[-1].node.keywords if k.arg is None] if rets else []
+        if len(stars) != 1 or not isinstance(stars[0], ast.Name):
+            r.fail(cons, 'loop-body', 'the functors are not handed to the handle as one **mapping', f, node)
+            return
+        d = stars[0].id
+        defs = path_defs(p)
+        for e in p.events:
+            if e.kind != 'store' or not isinstance(e.node, ast.Subscript) or src(e.node.value) != d:
+                continue
+            key = e.node.slice
+            val = resolved(e.stmt.value, path_defs(p, e), keep=set(f.params))
+            letters = []
+            okform = isinstance(key, ast.Constant) and isinstance(val, ast.Call) and isinstance(val.func, ast.Attribute) \
+                and val.func.attr == 'from_args' and isinstance(val.func.value, ast.Attribute) and src(val.func.value.value) == f.params[0] \
+                and len(val.args) == 1 and isinstance(val.args[0], ast.Name) and val.args[0].id in f.params
+            if not okform:
+                r.fail(cons, 'loop-body', 'loop body does not bind builder.from_args(data) under the phase key', f, e.stmt)
+                continue
+            letters = [key.value, val.func.value.attr, val.args[0].id[0]]   # sdata -> s (parameters of __call__, bound positionally by the callers checked in D1)
+            # the store must be guarded by the truth of the same builder
+            guard = implied(p.conds, lambda t: src(t) == src(val.func.value))
+            seen.setdefault(key.value, []).append((letters, guard, e))
+    if not n_paths:
+        raise AnalysisError('PhaseFunctorBuilder.__call__: no normal path')
+    for i, ph in enumerate(sorted(seen)):
+        bad = [x for x in seen[ph] if len(set(x[0])) != 1]
+        if bad:
+            r.fail(cons, 'zip-misaligned-%s' % ph, 'the entry for phase %r mixes phases %s' % (ph, sorted(set(map(str, bad[0][0])))), f, bad[0][2].stmt)
         else:
-            elts = tup.get(it.id) if isinstance(it, ast.Name) else (it.elts if isinstance(it, (ast.Tuple, ast.List)) else None)
-            if elts and all(isinstance(e, ast.Tuple) and len(e.elts) == 3 for e in elts):
-                triples = [tuple(e.elts) for e in elts]
-                zipcall = n
-    if zipcall is None or not triples:
-        raise AnalysisError('PhaseFunctorBuilder.__call__: loop over (phase, builder, data) triples not found')
-    for i, tr in enumerate(triples):
-        letters = set()
-        for e in tr:
-            if isinstance(e, ast.Constant):
-                letters.add(e.value)
-            elif isinstance(e, ast.Attribute):
-                letters.add(e.attr)
-            elif isinstance(e, ast.Name):
-                letters.add(e.id[0])      # sdata -> s  (parameter names of __call__, bound positionally by the callers checked in D1)
-        if len(letters) == 1:
-            r.ok('PhaseFunctorBuilder.__call__', 'triple %d pairs phase/builder/data of phase %r' % (i, letters.pop()), f, zipcall)
-        else:
-            r.fail('PhaseFunctorBuilder.__call__', 'zip-misaligned-%d' % i,
-                   'triple %d mixes phases %s' % (i, sorted(map(str, letters))), f, zipcall)
-    # the loop body must bind builder.from_args(data) under key phase (directly or through a local)
-    tgt = [x.id for x in zipcall.target.elts]
-    made = set()
-    bound = False
-    for n in ast.walk(ast.Module(body=zipcall.body, type_ignores=[])):
-        if isinstance(n, ast.Assign):
-            v = n.value
-            is_make = isinstance(v, ast.Call) and src(v.func) == '%s.from_args' % tgt[1] and len(v.args) == 1 and src(v.args[0]) == tgt[2]
-            for t in n.targets:
-                if isinstance(t, ast.Name) and is_make:
-                    made.add(t.id)
-                if isinstance(t, ast.Subscript) and src(t.slice) == tgt[0] and (is_make or (isinstance(v, ast.Name) and v.id in made)):
-                    bound = True
-    if bound:
-        r.ok('PhaseFunctorBuilder.__call__', 'slg[phase] = builder.from_args(data)', f, zipcall)
+            r.ok(cons, 'phase %r: d[%r] = self.%s.from_args(%sdata) on %d paths' % (ph, ph, ph, ph, len(seen[ph])), f, seen[ph][0][2].stmt)
+    if set(seen) >= {'s', 'l', 'g'}:
+        r.ok(cons, 'all three phases are bound and handed to the handle as **mapping', f, node)
     else:
-        r.fail('PhaseFunctorBuilder.__call__', 'loop-body', 'loop body does not bind builder.from_args(data) under the phase key', f, zipcall)
+        r.fail(cons, 'loop-body', 'loop body does not bind builder.from_args(data) under the phase key (phases bound: %s)' % sorted(seen), f, node)
 
 
 def run(ctx):
@@ -210,6 +197,15 @@ def run(ctx):
                 if any(isinstance(m_, ast.Call) and len(m_.args) >= 2 and src(m_.args[1]) == helper.params[1] and src(m_.args[0]) != helper.params[0]
                        for m_ in walk_no_nested(helper.node)) \
                         and any(isinstance(m_, ast.For) and isinstance(m_.iter, ast.Name) and 'energy' in m_.iter.id for m_ in walk_no_nested(helper.node)):
+                    patched.add(n.args[1].value)
+        # the same patch written in place (the helper's body in the method itself): inside a loop over the module's table of
+        # energy handles, f(obj, '<name>', value) / obj.<name> = value on something other than the chemical
+        for lp in walk_no_nested(g_.node):
+            if not (isinstance(lp, ast.For) and isinstance(lp.iter, ast.Name) and 'energy' in lp.iter.id):
+                continue
+            for n in ast.walk(lp):
+                if isinstance(n, ast.Call) and len(n.args) == 3 and isinstance(n.args[1], ast.Constant) and isinstance(n.args[1].value, str) \
+                        and src(n.args[0]) != g_.params[0] and isinstance(n.func, ast.Name):
                     patched.add(n.args[1].value)
     ctx.anchor(len(patched) >= 2, 'Chemical: expected >= 2 constants patched into the functors by name, found %s' % sorted(patched))
     ctx.extra['C07_patched'] = patched
@@ -466,11 +462,21 @@ def mixture_rules(ctx):
     for cname, (pure, extra) in spec.items():
         f = prog.method(cname, '__call__', rel=IMM)
         cons = cname + '.__call__'
-        rets = [n for n in ast.walk(f.node) if isinstance(n, ast.Return)]
+        fnode = prog.normal_form(f)         # terms built by an append loop / through a helper read like the comprehension
+        rets = [n for n in ast.walk(fnode) if isinstance(n, ast.Return)]
         if len(rets) != 1:
             r3.fail(cons, 'shape', 'expected a single return', f, f.node)
             continue
         rv = rets[0].value
+        if not (isinstance(rv, ast.Call) and src(rv.func) == 'sum' and rv.args and isinstance(rv.args[0], (ast.ListComp, ast.GeneratorExp))):
+            from ..resolve import resolved
+            tdefs = {}
+            for st in fnode.body:
+                if isinstance(st, ast.Assign) and len(st.targets) == 1 and isinstance(st.targets[0], ast.Name):
+                    if st.targets[0].id in f.params:
+                        continue
+                    tdefs[st.targets[0].id] = st.value
+            rv = resolved(rv, {k: v for k, v in tdefs.items() if isinstance(v, (ast.ListComp, ast.GeneratorExp, ast.Call))})
         comp = None
         if isinstance(rv, ast.Call) and src(rv.func) == 'sum' and len(rv.args) == 1 \
                 and isinstance(rv.args[0], (ast.ListComp, ast.GeneratorExp)):
@@ -488,7 +494,7 @@ def mixture_rules(ctx):
         iname, jname = tg.elts[0].id, tg.elts[1].id
         # local straight-line env (models = self.models, total_mol = mol.sum())
         lin = Lin(call_hook=call_hook)
-        for st in f.node.body:
+        for st in fnode.body:
             if isinstance(st, ast.Assign):
                 lin.exec_stmt(st)
         lin.env[iname] = Form.atom('i')
@@ -691,10 +697,12 @@ def frozen_follow_inputs(ctx, rule):
 
     def fill_missing(st, field):
         """`if '<field>' in <names of missing properties>: self._field = default` -- the field was None before"""
-        par = st._parent
-        if isinstance(par, ast.If) and st in par.body and isinstance(par.test, ast.Compare) and isinstance(par.test.ops[0], ast.In) \
-                and isinstance(par.test.left, ast.Constant) and str(par.test.left.value) == field.lstrip('_'):
-            return True
+        child, par = st, getattr(st, '_parent', None)
+        while par is not None and not isinstance(par, (ast.FunctionDef, ast.AsyncFunctionDef, ast.ClassDef)):
+            if isinstance(par, ast.If) and any(child is b for b in par.body) and isinstance(par.test, ast.Compare) and isinstance(par.test.ops[0], ast.In) \
+                    and isinstance(par.test.left, ast.Constant) and str(par.test.left.value) == field.lstrip('_'):
+                return True
+            child, par = par, getattr(par, '_parent', None)
         return False
 
     funcs = {}
